@@ -470,7 +470,7 @@ def run(ctx: Any) -> None:
     step_keys: list[dict[str, Any]] = []
 
     # ---- (a) exhaustive: every reachable table x every operation on tiny real segments -------------
-    D = 5 if quick else 7
+    D = 6 if quick else 7
     n_states = 0
     for d in range(1, D + 1):
         s = Seg(shm_mod, d)
@@ -527,7 +527,7 @@ def run(ctx: Any) -> None:
     # ---- (b) random histories, table after every operation ---------------------------------------
     hist_cases: list[tuple[str, str]] = []
     hist_keys: list[dict[str, Any]] = []
-    n_hist = 120 if quick else 1200
+    n_hist = 200 if quick else 1200
     for h in range(n_hist):
         data = ctx.rng.choice([8, 33, 100, 1000, 4096, 65536, 1 << 20])
         s = Seg(shm_mod, data)
@@ -653,11 +653,11 @@ def run(ctx: Any) -> None:
     copy_cases: list[tuple[str, str]] = []
     write_keys: list[dict[str, Any]] = []
     copy_keys: list[dict[str, Any]] = []
-    n_writes = 140 if quick else 1200
+    n_writes = 210 if quick else 1200
     s = Seg(shm_mod, 4 << 20)
     small = Seg(shm_mod, 60000)
     try:
-        pads = boundary_pads(shm_mod, s)
+        pads = boundary_pads(shm_mod, small)
         ctx.obligation("generator:estimate-boundary", "generator", set(pads) >= {0, 8}, f"stream-minus-estimate deltas reached: {sorted(pads)}")
         plan = [(k, False) for k in KINDS for _ in range(n_writes // len(KINDS))] + [("wide_big", True)] * (3 if quick else 12)
         plan += [(f"boundary:{pad}", False) for _d, pad in sorted(pads.items()) for _ in range(4 if quick else 12)]
